@@ -21,7 +21,7 @@ SAFE_PATTERNS = [r'\d+', r'[a-z]+', r'x*', r'(a)(b)?', r'[ab]', r'\w+', r'b?']
 def gen_cfg_grammar(rng):
     """a grammar whose patterns match no whitespace, no dot / skip-to, plus an input-layer configuration given
     partly as directives and partly as parse-time settings"""
-    cfg = G.GenCfg(dots=0.0, skipto=0.0, consts=0.06, ws_patterns=False)
+    cfg = G.GenCfg(dots=0.0, skipto=0.0, consts=0.06, ws_patterns=False, left_context=False)
     g = G.gen_grammar(rng, cfg, depth=rng.choice([2, 3]))
     directives, settings = {}, E.Settings()
 
